@@ -38,7 +38,7 @@ def gen_expr(rng, depth, nleaf):
 
 # the wider alphabet of the direct oracle (not in the Coq model): quotients, math functions, comparisons, Boolean
 # and three-valued operators (seeded change C17-H: tvl_and took a fully masked shrunk operand for an unmasked one)
-NUM_UN = ['neg', 'abs', 'sin', 'sq']
+NUM_UN = ['neg', 'abs', 'sin', 'sq', 'mw_lt_keep', 'mw_ge_keep', 'clip_keep', 'mw_eq_repl', 'int_clip']
 NUM_BIN = ['add', 'sub', 'mul', 'div', 'maximum']
 CMP = ['lt', 'le', 'gt', 'eq', 'ne', 'tvl_lt', 'tvl_eq', 'tvl_ne']
 BOOL_BIN = ['and', 'or', 'xor', 'tvl_and', 'tvl_or']
@@ -87,7 +87,12 @@ def eval_expr(e, env):
         if e[1] in ('neg', 'abs'):
             return -x if e[1] == 'neg' else abs(x)
         x = _q(x)
-        return {'sin': lambda: x.sin(), 'sq': lambda: x * x, 'not': lambda: x.logical_not()}[e[1]]()
+        return {'sin': lambda: x.sin(), 'sq': lambda: x * x, 'not': lambda: x.logical_not(),
+                # replacement without re-masking: what was masked before stays masked (seeded change C17-M)
+                'mw_lt_keep': lambda: x.mask_where_lt(0, replace=7, remask=False),
+                'mw_ge_keep': lambda: x.mask_where_ge(1, replace=-7, remask=False),
+                'clip_keep': lambda: x.clip(-1, 1, remask=False), 'mw_eq_repl': lambda: x.mask_where_eq(0, replace=1),
+                'int_clip': lambda: x.wod.int(top=3, clip=True)}[e[1]]()
     a, b = eval_expr(e[2], env), eval_expr(e[3], env)
     if e[1] in ('add', 'sub', 'mul'):
         return a + b if e[1] == 'add' else (a - b if e[1] == 'sub' else a * b)
@@ -137,6 +142,8 @@ def gen_operand(rng, lead, n, with_deriv, float_vals):
         if not shape:
             mask = mask[0]
     d = {'shape': list(shape), 'vals': vals, 'mask': mask, 'deriv': bool(with_deriv), 'float': bool(float_vals)}
+    if with_deriv and rng.random() < 0.4:
+        d['ddenom'] = [2]          # the derivative has a denominator axis (seeded change C17-L: masked_single lost it)
     if with_deriv and shape and rng.random() < 0.5:
         # the derivative is masked at elements where its parent is not (as d sqrt(u)/dt at u = 0): seeded change C17-D
         d['dmask'] = [rng.random() < 0.3 for _ in range(cnt)]
@@ -158,7 +165,11 @@ def build(d, Pm):
         dm = False
         if d.get('dmask') and shape:
             dm = np.array(d['dmask'], bool).reshape(shape) | np.broadcast_to(np.asarray(m), shape)
-        x.insert_deriv('t', Pm.Scalar(dv, dm))
+        if d.get('ddenom'):
+            dv = np.stack([np.asarray(dv, dtype=float), np.asarray(dv, dtype=float) * -2. + 0.25], axis=-1)
+            x.insert_deriv('t', Pm.Scalar(dv, dm, drank=1))
+        else:
+            x.insert_deriv('t', Pm.Scalar(dv, dm))
     return x
 
 
@@ -200,10 +211,14 @@ def obs_selected(r, am, full_shape, Pm):
     out = [None if mm else float(vv) for vv, mm, ss in zip(v.ravel(), m.ravel(), sel.ravel()) if ss]
     ders = {}
     for k, d in sorted(r.derivs.items()):
-        dv = np.broadcast_to(np.asarray(d._values_), full_shape)
-        dm = np.broadcast_to(np.asarray(d._mask_), full_shape)
-        ders[k] = [None if (mm or dmm) else float(x) for x, mm, dmm, ss in
-                   zip(dv.ravel(), m.ravel(), dm.ravel(), sel.ravel()) if ss]
+        den = tuple(d._denom_)
+        try:
+            dv = np.broadcast_to(np.asarray(d._values_), tuple(full_shape) + den).reshape((-1, int(np.prod(den)) if den else 1))
+            dm = np.broadcast_to(np.asarray(d._mask_), full_shape)
+        except ValueError:
+            return ('deriv-shape-error', k, list(np.shape(d._values_)), list(den))
+        ders[k] = [list(den)] + [None if (mm or dmm) else [float(y) for y in x] for x, mm, dmm, ss in
+                                 zip(dv, m.ravel(), dm.ravel(), sel.ravel()) if ss]
     return (out, ders)
 
 
